@@ -28,6 +28,43 @@ theorem reshape_iff (m : Matrix α) (hfit : m.data.size ≤ usizeMax) (r c : Nat
   rw [C08.reshape_decision m hfit]
   by_cases h : r * c = m.data.size <;> simp [h]
 
+/-- reshaping to the current shape is the identity, and a reshape can always be undone: going to
+`(r, c)` and back to the old shape returns exactly the matrix one started from (shape, order and
+memory-order sequence). -/
+theorem reshape_round_trip (m : Matrix α) (h : m.Coh) (hfit : m.data.size ≤ usizeMax) (r c : Nat)
+    (hrc : r * c = m.data.size) :
+    ∃ m', m.reshape ⟨r, c⟩ = .ok (.ok (), m') ∧ m'.reshape ⟨m.nrows, m.ncols⟩ = .ok (.ok (), m) := by
+  refine ⟨{ m with shape := (Shape.mk r c).toAxis m.order }, ?_, ?_⟩
+  · rw [C08.reshape_decision m hfit]; simp [hrc]
+  · rw [C08.reshape_decision _ (by exact hfit)]
+    have hsz := h.size_eq
+    obtain ⟨o, sh, d⟩ := m
+    cases o <;>
+      simp only [Matrix.nrows, Matrix.ncols, AxisShape.nrows, AxisShape.ncols, Shape.toAxis] at hsz ⊢
+    · simp [hsz]
+    · have hsz' : sh.minor * sh.major = d.size := by rw [Nat.mul_comm]; exact hsz
+      simp [hsz']
+
+theorem reshape_same (m : Matrix α) (h : m.Coh) (hfit : m.data.size ≤ usizeMax) :
+    m.reshape ⟨m.nrows, m.ncols⟩ = .ok (.ok (), m) := by
+  rw [C08.reshape_decision m hfit]
+  have hsz := h.size_eq
+  obtain ⟨o, sh, d⟩ := m
+  cases o <;>
+    simp only [Matrix.nrows, Matrix.ncols, AxisShape.nrows, AxisShape.ncols, Shape.toAxis] at hsz ⊢
+  · simp [hsz]
+  · have hsz' : sh.minor * sh.major = d.size := by rw [Nat.mul_comm]; exact hsz
+    simp [hsz']
+
+/-- two successful reshapes in a row are the same as the last one alone -/
+theorem reshape_reshape (m : Matrix α) (hfit : m.data.size ≤ usizeMax) (r c r' c' : Nat)
+    (h1 : r * c = m.data.size) (h2 : r' * c' = m.data.size) :
+    ∃ m', m.reshape ⟨r, c⟩ = .ok (.ok (), m') ∧ m'.reshape ⟨r', c'⟩ = m.reshape ⟨r', c'⟩ := by
+  refine ⟨{ m with shape := (Shape.mk r c).toAxis m.order }, ?_, ?_⟩
+  · rw [C08.reshape_decision m hfit]; simp [h1]
+  · rw [C08.reshape_decision _ (by exact hfit), C08.reshape_decision m hfit]
+    simp [h2]
+
 /-- the memory-order sequence after `Vec::resize_with`: the first `min(old, new)` elements are
 kept, the rest is dropped (shrinking) or `T::default()` values are appended (growing) -/
 theorem resizeData_toList (d : Array α) (n : Nat) (dflt : α) :
